@@ -220,6 +220,8 @@ def check_align_e2e(facts, chk, rule, tier):
                 g = ''.join(g)
                 if s % 2 == 1:
                     g = _rcs(g)                     # contigs in either orientation
+                if s == ns - 1 and n % 2 == 0:
+                    g = g[:len(g) // 2].lower() + g[len(g) // 2:]          # a soft-masked (lower-case) stretch in one sample: same sequence
                 samples.append(('s%d' % s, [g]))
             n += 1
             try:
